@@ -417,6 +417,50 @@ def r24_8(ctx, rep):
     rep.ob(R, site, "every equation gets a residual", bad is None, "exitEquation can return without storing the equation's text", path=cfg.describe(bad) if bad else "")
 
 
+FREE_TEXT_FIELDS = ("comment", "annotation", "description")
+
+
+@SPEC.rule(
+    "R24.10",
+    "no free text of the model reaches the generated source: the templates of sympy/generator.py interpolate rendered sub-expressions, "
+    "mangled names and literal values only — never a node's comment / annotation (a description string may contain line breaks, quotes "
+    "or a `#`, and what follows the first line break of a `# ...` comment is code)",
+)
+def r24_10(ctx, rep):
+    R = "R24.10"
+    mod = ctx.module(SYM, R)
+    n = 0
+    hits = []
+    for c in ast.walk(mod):
+        if isinstance(c, ast.Constant) and isinstance(c.value, str) and ("{{" in c.value or "{%" in c.value):
+            n += 1
+            for m_ in re.finditer(r"\{\{(.*?)\}\}|\{%(.*?)%\}", c.value, flags=re.S):
+                seg = m_.group(1) or m_.group(2) or ""
+                for f in FREE_TEXT_FIELDS:
+                    if re.search(r"\.%s\b" % f, seg):
+                        hits.append("{{%s}}" % seg.strip()[:50])
+    # the same through str.format in the handlers
+    for fn in ctx.methods(SYM, "SympyGenerator", R).values():
+        for x in ast.walk(fn):
+            if isinstance(x, ast.Attribute) and x.attr in FREE_TEXT_FIELDS and isinstance(x.ctx, ast.Load):
+                hits.append("%s: %s" % (fn.name, norm(x)))
+    if n < 2:
+        raise MechanismMissing(R, "fewer than 2 templates found in sympy/generator.py")
+    rep.ob(R, SYM, "templates and handlers interpolate no free text", not hits,
+           "%s — a multi-line (or quote-carrying) description turns the generated module into invalid Python" % "; ".join(hits[:3]))
+
+
+@SPEC.rule(
+    "R24.11",
+    "the module is generated from the tree as it is now: no function of sympy/generator.py writes a module-level container, is wrapped in "
+    "a caching decorator or keeps a mutable default — a memo per tree object and model name returns the old source after the tree was "
+    "edited in place, and the lists and equations no longer match the flat model",
+)
+def r24_11(ctx, rep):
+    from .c25 import module_state_free
+    module_state_free(ctx, rep, "R24.11", SYM, "the SymPy generator module")
+
+
 # -- seeded variants ---------------------------------------------------------
 from ._mut import replace_in_func  # noqa: E402
 
@@ -499,3 +543,12 @@ def _m_zero_lhs(mod):
         return True
 
     return mod if replace_in_func(mod, "SympyGenerator.exitEquation", edit) else None
+
+
+@SPEC.mutant("equation descriptions emitted as trailing comments", SYM, "R24.10", "no free text")
+def _m_comment(mod):
+    for c in ast.walk(mod):
+        if isinstance(c, ast.Constant) and isinstance(c.value, str) and "{{ render.src[eq] }}," in c.value:
+            c.value = c.value.replace("{{ render.src[eq] }},", "{{ render.src[eq] }},  # {{ eq.comment }}")
+            return mod
+    return None
